@@ -7,7 +7,7 @@ import PPModel.Driver.Parse
     c12stream <root> (<pre nodes>) (<post nodes>) ↦ (stream <streamCheck> <flattens?> <flag hypotheses hold>)
     c12flat (<nodes>) (<pre ids>) <n> (<post ids>) ↦ (flat <flattenHyp>)
 -/
-namespace PP.Driver
+namespace PP.Driver.SugarD
 open PP PP.Sexp PP.Parse
 
 def pair? : Sexp → Option (Nat × Nat)
@@ -34,4 +34,8 @@ def sugarHandle : List Sexp → Option Sexp
       pure (.list [.atom "flat", ofBool (flattenHyp g (← pre.mapM nat?) (← n.nat?) (← post.mapM nat?))])
   | _ => none
 
+end PP.Driver.SugarD
+
+namespace PP.Driver
+def sugarHandle := SugarD.sugarHandle
 end PP.Driver
